@@ -609,7 +609,7 @@ pub struct DedupeConfig {
     /// `--rf-over` value in the earlier `fclones group` run.
     #[arg(
         short = 'n', long, value_name = "COUNT",
-        value_parser = clap::value_parser!(u64).range(1..)
+        value_parser = clap::builder::RangedU64ValueParser::<usize>::new().range(1..)
     )]
     pub rf_over: Option<usize>,
 
